@@ -45,6 +45,10 @@ class Family:
         """signature of a recorded known finding that explains this difference, or None"""
         return None
 
+    def note(self, ctx, sc, lean):
+        """model-side information that is not compared with python (counted into the evidence)"""
+        pass
+
     def first_diff(self, py, lean, sc=None, hits=None):
         for i, (a, b) in enumerate(zip(py, lean)):
             if a != b:
@@ -91,6 +95,7 @@ class Family:
             lean = outs.get(sc["id"], {"error": "no output"})
             if "error" in lean:
                 raise RuntimeError("driver: " + lean["error"])
+            self.note(ctx, sc, lean["out"][self.out_key])
             hits = set()
             i, detail = self.first_diff(py, lean["out"][self.out_key], sc, hits)
             for sig in hits:
@@ -196,6 +201,21 @@ class MutateFamily(Family):
         for op, rec in zip(sc["ops"], py[1:]):
             tag = rec["r"][0]
             ctx.count(f"op:{op[0]}:" + (tag if tag != "err" else "err:" + rec["r"][1][0]))
+
+    def first_diff(self, py, lean, sc=None, hits=None):
+        # "t": the driver's comparison of the store model with the tree-level specification
+        # (J.setAt / J.popAt of Spec/TreeWrite.lean) on this very operation — not a python observable
+        for i, b in enumerate(lean):
+            t = b.get("t") if isinstance(b, dict) else None
+            if t == "BAD":
+                return i, f"step {i}: the store model and the tree-level specification (Spec/TreeWrite) disagree: {json.dumps(b)[:300]}"
+        stripped = [{k: v for k, v in b.items() if k != "t"} if isinstance(b, dict) else b for b in lean]
+        return super().first_diff(py, stripped, sc, hits)
+
+    def note(self, ctx, sc, lean):
+        for b in lean:
+            if isinstance(b, dict) and "t" in b:
+                ctx.count("tree-spec:" + b["t"])
 
 
 class BuilderFamily(Family):
